@@ -159,6 +159,8 @@ func runJob(bin string, specs []proto.RunSpec, timeout time.Duration, extraEnv .
 		cmd.Env = append(cmd.Env, "GOMAXPROCS=16")
 	}
 	cmd.Env = append(cmd.Env, extraEnv...)
+	// the sandbox has no memory limit: keep each worker's heap in check
+	cmd.Env = append(cmd.Env, "GOMEMLIMIT=3GiB")
 	cmd.Dir = workDir
 	errf, _ := os.Create(base + ".stderr")
 	cmd.Stdout, cmd.Stderr = errf, errf
@@ -409,6 +411,7 @@ type pool struct {
 	deadline      time.Time
 	skipped       int
 	watchdogs     []string
+	killedOnce    map[string]bool // runs whose worker was killed from outside once already
 	perRunTimeout time.Duration
 }
 
@@ -456,6 +459,23 @@ func (p *pool) run() {
 				if oc.crashed != nil {
 					if oc.watchdog {
 						p.watchdogs = append(p.watchdogs, fmt.Sprintf("%s/%s seed=%d", oc.crashed.Scenario, oc.crashed.Stratum, oc.crashed.Seed))
+					} else if sig, _ := crashSignature(oc.crashText); sig == "no-panic-text" {
+						// The worker died inside this run without any Go panic / fatal-error
+						// text: it was killed from outside (out-of-memory killer, a signal).
+						// That says nothing about the library. The run is repeated once in a
+						// process of its own; a second death is harness trouble (exit 2),
+						// never a violation.
+						sp := *oc.crashed
+						key := fmt.Sprintf("%s/%s/%d", sp.Scenario, sp.Stratum, sp.Seed)
+						if p.killedOnce == nil {
+							p.killedOnce = map[string]bool{}
+						}
+						if !p.killedOnce[key] {
+							p.killedOnce[key] = true
+							p.queue = append(p.queue, []proto.RunSpec{sp})
+						} else {
+							p.watchdogs = append(p.watchdogs, fmt.Sprintf("%s seed=%d: worker killed twice without a Go crash report (out of memory?)", key, sp.Seed))
+						}
 					} else {
 						sp := oc.crashed
 						v, _ := crashViolation(sp, oc.mark, oc.crashText)
